@@ -164,12 +164,14 @@ Lemma step_ok cf t k s : tab_ok t -> In s (col t k) -> tab_ok (step cf g inp t k
 Proof.
   intros Ht Hs. unfold step. pose proof (Ht _ _ Hs) as Hi.
   destruct (next_sym s) as [[[p|b|id]|a]|] eqn:En.
-  - destruct (is_prefix (lit_units p) (skipn (k / 8) (units inp))) eqn:Ep; [|exact Ht].
+  - destruct (Nat.eqb (k mod 8) 0); [|exact Ht]. cbn [andb].
+    destruct (is_prefix (lit_units p) (skipn (k / 8) (units inp))) eqn:Ep; [|exact Ht].
     apply tab_ok_add; [exact Ht|]. eapply adv_ok; [exact Hi|exact En|]. apply ms_lit; [exact Ep|constructor].
   - destruct (nth_error (units inp) (k / 8)) as [u|] eqn:Eu; [|exact Ht].
     destruct (Bool.eqb (N.testbit u (N.of_nat (7 - k mod 8))) b) eqn:Eb; [|exact Ht].
     apply tab_ok_add; [exact Ht|]. eapply adv_ok; [exact Hi|exact En|]. eapply ms_bit; eauto. constructor.
-  - destruct (re_len (re_at inp) id (k / 8)) as [[|l]|] eqn:Er; try exact Ht.
+  - destruct (Nat.eqb (k mod 8) 0); [|exact Ht].
+    destruct (re_len (re_at inp) id (k / 8)) as [[|l]|] eqn:Er; try exact Ht.
     apply tab_ok_add; [exact Ht|]. eapply adv_ok; [exact Hi|exact En|]. apply ms_re; [exact Er|constructor].
   - destruct (rlookup g a) as [[nm alts]|] eqn:El; [|exact Ht].
     eapply predict_ok; [exact Ht|exact El| |apply incl_refl].
@@ -181,9 +183,9 @@ Lemma step_keeps cf t k s k' s' : In s' (col t k') -> In s' (col (step cf g inp 
 Proof.
   intros H. unfold step.
   destruct (next_sym s) as [[[p|b|id]|a]|].
-  - destruct (is_prefix _ _); [apply col_add_keep|]; exact H.
+  - destruct (Nat.eqb (k mod 8) 0 && is_prefix _ _); [apply col_add_keep|]; exact H.
   - destruct (nth_error _ _); [|exact H]. destruct (Bool.eqb _ _); [apply col_add_keep|]; exact H.
-  - destruct (re_len _ _ _) as [[|l]|]; try exact H. apply col_add_keep. exact H.
+  - destruct (if Nat.eqb (k mod 8) 0 then re_len _ _ _ else None) as [[|l]|]; try exact H. apply col_add_keep. exact H.
   - destruct (rlookup g a) as [[nm alts]|]; [|exact H].
     revert t H. induction alts as [|r rs IH]; intros t H; simpl; [exact H|]. apply IH. apply col_add_keep. exact H.
   - generalize 0 as j. revert t H. induction cf as [|f IH]; intros t H j; simpl; [exact H|].
